@@ -403,6 +403,13 @@ func (h *c14cliRun) evalTaxonomy(scheme int, parent []int, ranks []string, only 
 							sub("restrict-to", CLIRestrictTaxonomyPredicate, wantR)
 							sub("ignore", CLIAvoidTaxonomyPredicate, wantI)
 						}
+						// a list of 3 or more entries is named in the key: a defect of the repetition of an option
+						// must not hide behind one of the option itself
+						if n := map[string]int{"require-rank": len(K), "restrict-to": len(R), "ignore": len(I), "composition": 0}[which]; n >= 3 {
+							which += "(3+-entries)"
+						} else if which == "composition" && len(R)+len(I)+len(K) >= 3 && (len(R) >= 3 || len(I) >= 3 || len(K) >= 3) {
+							which += "(3+-entries)"
+						}
 						r.Violate("obigrep.CLITaxonomyFilterPredicate/"+class+":"+which,
 							fmt.Sprintf("-r %v -i %v --require-rank %v on sequence taxid=%d %s=%d: got %v want %v; tree parent=%v ids=%v alias=%v ranks=%q",
 								R, I, K, sq.taxid, c14cliSlot, sq.slot, got, want, m.parent, m.ids, m.alias, m.ranks), c)
